@@ -961,7 +961,12 @@ pub fn gen_c03(rng: &mut Rng, _run: u64, _thorough: bool) -> Trace {
         }
     }
     let n = bytes.len() as u64;
-    let bound = c03_bound(n, bound_w, bound_h);
+    let mut bound = c03_bound(n, bound_w, bound_h);
+    if target.starts_with("macro:") || target == "dcs:hexrepeat" {
+        // one invocation may legitimately replay up to the macro space (32 767 characters, the engine's own
+        // limit), and each replayed character may scroll the screen once
+        bound += 32_767 * (bound_w * bound_h + 8);
+    }
     t.cfg.fuel = bound;
     t.cfg.decode_fuel = bound;
     t.labels.push(format!("target={target}"));
